@@ -36,8 +36,7 @@ class DirFamily(Family):
         return "%s %s %s" % (c["id"], ",".join("%s=%s" % (n, hx(b)) for n, b in c["files"]), ";".join(c["ops"]) or "-")
 
     def driver_line(self, c, impl_obs):
-        # an event without a change ("early") is nothing to the model
-        s = self.harness_line(dict(c, ops=[o for o in c["ops"] if not o.startswith("early:")]))
+        s = self.harness_line(c)      # "early:<n>": the driver runs the loop model on the corresponding script
         if impl_obs is not None:
             s += " obs=" + impl_obs
         return s
